@@ -46,6 +46,36 @@ def find_scope(text, header_re, nth=0):
     return text[i + 1:j], text[max(0, m.start() - 1200):m.start()] + m.group(0)
 
 def nospace(t): return re.sub(r'\s+', '', t)
+def B(x): return 'true' if x else 'false'
+
+def pp_defines(text, predefined):
+    """run the conditional-compilation directives of `text`, tracking #define / #undef of active regions; returns the set of defined names"""
+    D = set(predefined); stack = []
+    def ev(e):
+        e = re.sub(r'defined\s*\(\s*(\w+)\s*\)', lambda k: ' 1 ' if k.group(1) in D else ' 0 ', e)
+        e = re.sub(r'defined\s+(\w+)', lambda k: ' 1 ' if k.group(1) in D else ' 0 ', e)
+        e = re.sub(r'\b[A-Za-z_]\w*\b', lambda k: '1' if k.group(0) in D else '0', e)
+        e = e.replace('&&', ' and ').replace('||', ' or ').replace('!=', ' <> ').replace('!', ' not ').replace('<>', '!=')
+        if not re.fullmatch(r'[\s\d()=!<>a-z]*', e): raise XErr('unsupported preprocessor condition: ' + e)
+        return bool(eval(e))
+    for line in text.split('\n'):
+        t = line.strip()
+        if not t.startswith('#'): continue
+        m = re.match(r'#\s*(ifdef|ifndef|if|elif|else|endif|define|undef)\b(.*)', t)
+        if not m: continue
+        d, rest = m.group(1), m.group(2).strip()
+        active = all(x[0] for x in stack)
+        if d == 'ifdef': stack.append([active and rest.split()[0] in D, False])
+        elif d == 'ifndef': stack.append([active and rest.split()[0] not in D, False])
+        elif d == 'if': stack.append([active and ev(rest), False])
+        elif d == 'elif':
+            prev = stack[-1][0] or stack[-1][1]; outer = all(x[0] for x in stack[:-1]); stack[-1] = [outer and (not prev) and ev(rest), prev]
+        elif d == 'else':
+            prev = stack[-1][0] or stack[-1][1]; outer = all(x[0] for x in stack[:-1]); stack[-1] = [outer and not prev, True]
+        elif d == 'endif': stack.pop()
+        elif d == 'define' and active: D.add(re.match(r'\w+', rest).group(0))
+        elif d == 'undef' and active: D.discard(rest.split()[0])
+    return D
 
 def preprocess(body, defined):
     """minimal conditional compilation: #if defined(A) || defined(B) / #ifdef / #ifndef / #else / #endif"""
@@ -529,6 +559,37 @@ def gen_all(repo):
              isvec(r'struct\s+is_vectorisable\s*<\s*Index<Idx0\.\.\.>\s*,\s*Index<Idx1\.\.\.>\s*,\s*Tensor<double,Rest\.\.\.>\s*>\s*\{', 'double'), EM + ': the specialisation for double (literal widths)')
     G.define('gen_is_reducibly_vectorisable', '(F nu n0 n1 : Z) (lc : bool) (ws wa : Z)', '(bool * Z * Z)',
              isvec(r'struct\s+is_reducibly_vectorisable\s*<\s*Index<Idx\.\.\.>\s*,\s*Tensor<T,Rest\.\.\.>\s*>\s*\{', 'T'), EM + ': is_reducibly_vectorisable<Index<Idx...>,Tensor<T,Rest...>>: ' + isv)
+
+    # ---- config/config.h, config/macros.h, simd_vector_abi.h: what each compiler configuration of the harness grid selects
+    ISA_FLAGS = [('scalar', ['-DFASTOR_DONT_VECTORISE']), ('sse2', ['-msse2']), ('sse42', ['-msse4.2']), ('avx', ['-mavx']), ('avx2', ['-mavx2', '-mfma']),
+                 ('avx512', ['-mavx512f', '-mavx512vl', '-mavx512dq', '-mavx512bw', '-mavx2', '-mfma'])]
+    def isa_table():
+        import subprocess
+        cfg = strip_comments(G.src('config/config.h'))
+        a = cfg.find('#if defined(__MIC__)'); b = cfg.find('#define FASTOR_SCALAR_IMPL 1')
+        m2 = re.search(r'#if\s+defined\(FASTOR_AVX512F_IMPL\)\s*&&\s*defined\(FASTOR_AVX512VL_IMPL\)\s*\n\s*#define\s+FASTOR_HAS_AVX512_MASKS\s+1\s*\n\s*#endif', cfg)
+        if a < 0 or b < a or not m2: raise XErr('config.h: the instruction-set section / FASTOR_HAS_AVX512_MASKS not found')
+        isa_sec = cfg[a:cfg.index('#endif', b) + 6] + '\n' + m2.group(0)
+        mac = strip_comments(G.src('config/macros.h'))
+        m3 = re.search(r'#ifndef FASTOR_MEMORY_ALIGNMENT_VALUE\n(.*?)\n#endif\n#endif', mac, flags=re.S)
+        if not m3: raise XErr('macros.h: FASTOR_MEMORY_ALIGNMENT_VALUE ladder not found')
+        abi = strip_comments(G.src('simd_vector/simd_vector_abi.h'))
+        m4 = re.search(r'#ifndef FASTOR_DONT_VECTORISE\n.*?#endif\n#else\n.*?#endif', abi, flags=re.S)
+        if not m4: raise XErr('simd_vector_abi.h: the ladder defining simd_abi::native not found')
+        rows = []
+        for name, flags in ISA_FLAGS:
+            r = subprocess.run(['g++', '-dM', '-E', '-x', 'c++', '/dev/null'] + flags, capture_output=True, text=True)
+            if r.returncode != 0: raise XErr('g++ -dM -E failed for ' + name)
+            pre = set(re.findall(r'^#define (\w+)', r.stdout, flags=re.M))
+            D = pp_defines(isa_sec, pre)
+            al = re.findall(r'@ALIGN (\d+)', preprocess(re.sub(r'#define FASTOR_MEMORY_ALIGNMENT_VALUE (\d+)', r'@ALIGN \1', m3.group(0)), D))
+            nat = re.findall(r'using native = simd_abi::(\w+);', preprocess(m4.group(0), D))
+            if len(al) != 1 or len(nat) != 1: raise XErr('%s: alignment %s, native %s' % (name, al, nat))
+            rows.append('(%d, %s, %s, %s)' % ({'scalar': 0, 'sse': 1, 'avx': 2, 'avx512': 3}[nat[0]], B('FASTOR_AVX2_IMPL' in D or 'FASTOR_HAS_AVX512_MASKS' in D), B('FASTOR_FMA_IMPL' in D), al[0]))
+        return '[' + '; '.join(rows) + ']'
+    G.define('gen_isa_table', '', 'list (nat * bool * bool * nat)', isa_table,
+             'config/config.h, config/macros.h, simd_vector/simd_vector_abi.h evaluated (own preprocessor, #define tracked) from the macros g++ predefines under the flags of each '
+             'configuration of the harness grid [scalar; sse2; sse42; avx; avx2; avx512]: (simd_abi::native 0 scalar 1 sse 2 avx 3 avx512, FASTOR_AVX2_IMPL || FASTOR_HAS_AVX512_MASKS, FASTOR_FMA_IMPL, FASTOR_MEMORY_ALIGNMENT_VALUE)')
 
     # ---- simd_vector_abi.h ---------------------------------------------------------------------------
     abi_atoms = [(r'std::is_same\s*<\s*ABI\s*,\s*simd_abi::avx512\s*>::value', r'(a =? 3)', 'b'),
